@@ -148,6 +148,11 @@ class LowerBound:
                 return None
             if isinstance(st, ast.Expr) and isinstance(st.value, ast.Constant):
                 continue
+            if isinstance(st, ast.Return) and isinstance(st.value, ast.IfExp):
+                # return A if c else B   is   if c: return A  else: return B
+                new = ast.If(st.value.test, [ast.copy_location(ast.Return(st.value.body), st)], [ast.copy_location(ast.Return(st.value.orelse), st)])
+                ast.fix_missing_locations(ast.copy_location(new, st))
+                return self.block([new], env)
             if isinstance(st, ast.Return):
                 self.returns.append((st.lineno, self.ev(st.value, env) if st.value is not None else UNKNOWN))
                 return None
